@@ -155,7 +155,7 @@ func (g *Generator) generateMockMethod(
 	gf.P()
 
 	// Fill response fields
-	g.generateMockFieldAssignments(gf, method.Output, "resp")
+	g.generateMockFieldAssignments(gf, method.Output, "resp", map[string]bool{})
 
 	gf.P("return resp, nil")
 	gf.P("}")
@@ -165,12 +165,19 @@ func (g *Generator) generateMockMethod(
 }
 
 // generateMockFieldAssignments generates field assignments for a message.
+//
+// visiting holds the full names of the messages on the current path from the response type:
+// a field whose message type is already being filled (a recursive type) is left unset.
 func (g *Generator) generateMockFieldAssignments(
 	gf *protogen.GeneratedFile,
 	message *protogen.Message,
 	varName string,
+	visiting map[string]bool,
 ) {
 	messageName := string(message.Desc.Name())
+	fullName := string(message.Desc.FullName())
+	visiting[fullName] = true
+	defer delete(visiting, fullName)
 
 	for _, field := range message.Fields {
 		fieldName := field.GoName
@@ -199,12 +206,14 @@ func (g *Generator) generateMockFieldAssignments(
 			switch {
 			case field.Desc.IsMap():
 				// Handle map fields
-				g.generateMockMapFieldAssignment(gf, field, varName)
+				g.generateMockMapFieldAssignment(gf, field, varName, visiting)
 			case field.Desc.IsList():
 				gf.P("// TODO: Handle repeated message field ", fieldName)
+			case visiting[string(field.Message.Desc.FullName())]:
+				gf.P("// Recursive message field ", fieldName, " is left unset")
 			default:
 				gf.P(varName, ".", fieldName, " = &", field.Message.GoIdent, "{}")
-				g.generateMockFieldAssignments(gf, field.Message, varName+"."+fieldName)
+				g.generateMockFieldAssignments(gf, field.Message, varName+"."+fieldName, visiting)
 			}
 		case protoreflect.EnumKind,
 			protoreflect.Sint32Kind,
@@ -229,6 +238,7 @@ func (g *Generator) generateMockMapFieldAssignment(
 	gf *protogen.GeneratedFile,
 	field *protogen.Field,
 	varName string,
+	visiting map[string]bool,
 ) {
 	fieldName := field.GoName
 
@@ -244,6 +254,10 @@ func (g *Generator) generateMockMapFieldAssignment(
 
 	// Generate map entry based on value type
 	if valueField.Desc.Kind() == protoreflect.MessageKind {
+		if visiting[string(valueField.Message.Desc.FullName())] {
+			gf.P("// Recursive map value type: ", fieldName, " is left unset")
+			return
+		}
 		// Value is a message type - use QualifiedGoIdent for proper imports
 		gf.P(
 			varName,
@@ -258,7 +272,7 @@ func (g *Generator) generateMockMapFieldAssignment(
 		gf.P(varName, ".", fieldName, "[", sampleKey, "] = &", valueField.Message.GoIdent, "{}")
 		// Populate the value message fields
 		mapValueVar := varName + "." + fieldName + "[" + sampleKey + "]"
-		g.generateMockFieldAssignments(gf, valueField.Message, mapValueVar)
+		g.generateMockFieldAssignments(gf, valueField.Message, mapValueVar, visiting)
 	} else {
 		// Value is a scalar type
 		valueType := g.getGoTypeScalar(valueField)
